@@ -1,9 +1,11 @@
-\* repaired design (both switches TRUE): all safety properties, exhaustive
+\* QUICK: repaired design (all switches TRUE): every safety property and convergence under per-action weak
+\* fairness with a budgeted environment; no CONSTRAINT (bounds are action guards).
+\* Measured: 143 655 distinct states, depth 61, ~30 s on 4 busy cores.
 CONSTANTS
   InitLen = 3
-  MaxLen = 4
-  MaxSrcSteps = 2
-  MaxReorgs = 2
+  MaxLen = 3
+  MaxSrcSteps = 1
+  MaxReorgs = 1
   MaxNew = 1
   W = 2
   WV = 2
@@ -13,8 +15,8 @@ CONSTANTS
   FixH13 = TRUE
   FixRevertVerify = TRUE
   FixUnderflow = TRUE
-INIT Init
-NEXT Next
+  Fine = FALSE
+SPECIFICATION FairSpec
 INVARIANTS TypeOK LocalIsSourceBlocks ReorgExact
-PROPERTIES StoreSafe HeadMovesOnlyByStoreOrRevert RevertsJustified RevertsHaveEvidence
+PROPERTIES EventuallyConverges StoreSafe HeadMovesOnlyByStoreOrRevert RevertsJustified RevertsHaveEvidence
 CHECK_DEADLOCK TRUE
